@@ -97,8 +97,22 @@ fn targets() -> Vec<Target> {
             generated: true,
         });
     }
+    // the last three: handlers that depend on one another (`Gate.Hold` returns once `Key.Release` ran); only
+    // ever generated together, in this order, so that every call can be answered
+    for (iface, path, name, ret) in [("org.sim.Gate", "/gate", "Hold", Some(1u32)), ("org.sim.Gate", "/gate", "Peek", Some(2)), ("org.sim.Key", "/key", "Release", None)] {
+        v.push(Target {
+            iface: iface.into(),
+            paths: vec![path.into()],
+            name: name.into(),
+            in_sig: String::new(),
+            out_sig: if ret.is_some() { "u".into() } else { String::new() },
+            model: Box::new(move |_| (String::new(), Expect::Return(ret.map(Val::U32).into_iter().collect()))),
+            generated: true,
+        });
+    }
     v
 }
+const GATE_TARGETS: usize = 3;
 
 fn mutate_args(rng: &mut Rng, stage: Stage, args: &mut Vec<Val>) -> bool {
     match stage {
@@ -128,7 +142,7 @@ impl Scenario for C26Scn {
         "C26"
     }
     fn rule(&self) -> &'static str {
-        "a server exposes the hand-written interface corpus at two paths and the generated corpus (tools/gen_corpus.py: 16 interfaces, ~56 echoing methods with random signatures over a type pool, sync/async, &self/&mut self, fallible or not, spawn on/off) (hand-written: 10 methods: sync/async, &self/&mut self, infallible / fdo::Result / custom DBusError, tuple returns, arrays, variants, nested structs, handlers that sleep on the simulated clock) at two paths; the raw peer sends 1..8 calls (one run in 30: a flood of 70..110 back-to-back calls, more than the dispatch queue of 64 holds), several in flight: correct, unknown path / interface / member, one argument of the wrong type, last argument missing, one argument too many, with and without the no-reply flag; seeded splits, write stalls, schedules; oracle: handler log == exactly the calls whose path, interface, member and argument types match (with equal argument values), and per call exactly one reply with the right reply serial, signature and value / error name (none if the flag is set and the handler ran); non-trivial = at least two calls of which one fails at a pre-handler stage and one reaches a handler"
+        "a server exposes the hand-written interface corpus at two paths and the generated corpus (tools/gen_corpus.py: 16 interfaces, ~56 echoing methods with random signatures over a type pool, sync/async, &self/&mut self, fallible or not, spawn on/off) (hand-written: 10 methods: sync/async, &self/&mut self, infallible / fdo::Result / custom DBusError, tuple returns, arrays, variants, nested structs, handlers that sleep on the simulated clock) at two paths; the raw peer sends 1..8 calls (one run in 30: a flood of 70..110 back-to-back calls, more than the dispatch queue of 64 holds), several in flight (one run in eight ends with a `&mut self` handler that only returns once a later call to another interface has run, with a second call to its own interface in between): correct, unknown path / interface / member, one argument of the wrong type, last argument missing, one argument too many, with and without the no-reply flag; seeded splits, write stalls, schedules; oracle: handler log == exactly the calls whose path, interface, member and argument types match (with equal argument values), and per call exactly one reply with the right reply serial, signature and value / error name (none if the flag is set and the handler ran); non-trivial = at least two calls of which one fails at a pre-handler stage and one reaches a handler"
     }
     fn runs(&self, tier: Tier) -> u64 {
         match tier {
@@ -154,7 +168,7 @@ impl Scenario for C26Scn {
         let n = if flood { rng.range(70, 110) } else { rng.range(1, 8) };
         let mut calls = vec![];
         for _ in 0..n {
-            let method = if rng.chance(1, 2) { rng.usize(n_hand) } else { n_hand + rng.usize(ms.len() - n_hand) };
+            let method = if rng.chance(1, 2) { rng.usize(n_hand) } else { n_hand + rng.usize(ms.len() - n_hand - GATE_TARGETS) };
             let mut stage = match rng.below(12) {
                 0..=5 => Stage::Good,
                 6 => Stage::UnknownPath,
@@ -170,6 +184,14 @@ impl Scenario for C26Scn {
             }
             calls.push(Call { path: rng.below(2) as u8, method: method as u16, stage, args, no_reply: rng.chance(1, 6), gap: if flood { 0 } else { rng.below(3) as u8 } });
         }
+        // one run in eight ends with a handler that waits for a later call: Gate.Hold (&mut self), a second call
+        // to the same interface, then Key.Release which lets Hold return
+        if rng.chance(1, 8) {
+            let base = ms.len() - GATE_TARGETS;
+            for k in 0..GATE_TARGETS {
+                calls.push(Call { path: 0, method: (base + k) as u16, stage: Stage::Good, args: vec![], no_reply: false, gap: if flood { 0 } else { rng.below(3) as u8 } });
+            }
+        }
         let sched = SchedCfg::generate(rng, &["obj_server_task", "method dispatcher", "socket reader"]);
         (sched, j(&P { calls, link_in: gen_read_cfg(rng), link_out: gen_write_cfg(rng) }))
     }
@@ -177,8 +199,11 @@ impl Scenario for C26Scn {
     fn shrink(&self, body: &Value) -> Vec<Value> {
         let p: P = unj(body);
         let mut out = vec![];
+        // a Gate.Hold without a later Key.Release could never be answered: such candidates are not tried
+        let base = (targets().len() - GATE_TARGETS) as u16;
+        let answerable = |calls: &[Call]| calls.iter().enumerate().all(|(i, c)| c.method != base || calls[i + 1..].iter().any(|d| d.method == base + 2 && d.stage == Stage::Good));
         for c in drop_candidates(&p.calls) {
-            if !c.is_empty() {
+            if !c.is_empty() && answerable(&c) {
                 let mut q = p.clone();
                 q.calls = c;
                 out.push(j(&q));
@@ -206,6 +231,8 @@ impl Scenario for C26Scn {
             let b = zbus::connection::Builder::authenticated_socket(sock, GUID).unwrap().p2p().internal_executor(false);
             let b = b.serve_at("/a", A::new(&l2, &ww, 0)).unwrap().serve_at("/a/b", A::new(&l2, &ww, 1)).unwrap().serve_at("/b", B::new(&l2, &ww, 0)).unwrap();
             let b = corpus_gen::serve_all(b, &l2, &ww).unwrap();
+            let gate = crate::corpus::new_gate();
+            let b = b.serve_at("/gate", crate::corpus::Gate { state: gate.clone(), log: l2.clone(), w: ww.clone() }).unwrap().serve_at("/key", crate::corpus::Key { state: gate, log: l2.clone(), w: ww.clone() }).unwrap();
             match b.build().await {
                 Ok(c) => {
                     *r2.lock().unwrap() = Some(Ok(()));
